@@ -42,6 +42,9 @@ type qcfg struct {
 	level int  // Upgrader.SetCompressionLevel
 	big   zBig // the message behind script letter 'B'
 	after bool // the main thread writes one more small message once everything has drained
+	// readers: additional threads that call the public Conn.HandleRead on the connection next to
+	// the one Upgrade starts (BlockingModHandleRead): exactly one caller may become the reader
+	readers int
 }
 
 func (c qcfg) name() string {
@@ -56,6 +59,9 @@ func (c qcfg) name() string {
 	}
 	if !c.z && c.after {
 		s += " after=frame"
+	}
+	if c.readers > 0 {
+		s += fmt.Sprintf(" extra-HandleRead-callers=%d", c.readers)
 	}
 	return s
 }
@@ -202,6 +208,31 @@ func queuedBody(c qcfg) func() {
 			w.failf("open-not-before-upgrade-returned|Upgrade returned at t=%d, OnOpen calls completed: %v", upgraded, l.openEnd)
 		}
 
+		hrRet := make([]int, c.readers)
+		for i := 0; i < c.readers; i++ {
+			i := i
+			vsched.GoNamed(fmt.Sprintf("reader%d", i+1), func() {
+				w.tick()
+				wsc.HandleRead(64)
+				hrRet[i] = w.tick()
+			})
+		}
+		readersCheck := func(open bool) {
+			if len(fc.readCallers) > 1 {
+				w.failf("handleread-several-readers|%d different HandleRead callers read from the connection: only one of the concurrent callers may become the reader, the others must return at once (the read loop is not re-entrant: frames are parsed and dispatched by whoever read them)", len(fc.readCallers))
+			}
+			if open && c.readers > 0 {
+				blocked := 0
+				for _, t := range hrRet {
+					if t == 0 {
+						blocked++
+					}
+				}
+				if blocked > 1 {
+					w.failf("handleread-extra-caller-did-not-return|%d of the %d additional HandleRead calls have not returned although the connection is open and idle (at most one caller can be the reader)", blocked, c.readers)
+				}
+			}
+		}
 		for i, s := range c.writers {
 			if c.z {
 				startWriterMsgs(w, wsc, i, zScriptMsgs(c, i, s), c.f, &msgs, &inCall, nil)
@@ -301,6 +332,7 @@ func queuedBody(c qcfg) func() {
 				}
 			}
 		}
+		readersCheck(quiet && !fc.closed)
 		frameCheck(quiet, "at quiescence")
 		queueFullCheck()
 		if quiet {
@@ -372,6 +404,12 @@ func queuedBody(c qcfg) func() {
 		if c.z {
 			unowned = attributeWrites(fc, msgs, c.f)
 		}
+		readersCheck(false)
+		for i, t := range hrRet {
+			if t == 0 {
+				w.failf("handleread-stuck|additional HandleRead call #%d never returned although the connection has ended", i+1)
+			}
+		}
 		frameCheck(false, "at the end")
 		res := judgeWire(mw, fc.wire(), msgs, false, true, c.name()+" at the end")
 		if c.direct && res.v != nil {
@@ -433,6 +471,14 @@ func queuedBody(c qcfg) func() {
 		}
 		if exposed {
 			cnt["frame_level_only_executions"] = 1
+		}
+		if c.readers > 0 {
+			cnt["handleread_concurrent_callers"] = c.readers + 1
+			for _, t := range hrRet {
+				if t != 0 && (len(l.closes) == 0 || t < l.closes[0]) {
+					cnt["handleread_callers_turned_away"]++
+				}
+			}
 		}
 		if c.z {
 			cnt["z_followup_accepted"] = followUp
